@@ -5,7 +5,17 @@ package note
 // Contracts for govc (contract-based deductive verification, see /verif/DESIGN.md).
 // This file is compiled only with -tags verif and contains no executable code.
 
+// ---- vocabulary: crd's constants mapped by name onto the specification's codes ----
+
 //@ define qual(n) ite(n == MajorDegree, 1, ite(n == MinorDegree, 2, ite(n == PerfectDegree, 3, ite(n == AugmentedDegree, 4, ite(n == DiminishedDegree, 5, ite(n == DoublyAugmentedDegree, 6, ite(n == DoublyDiminishedDegree, 7, 0)))))))
+//@ define cq(c) ite(c == MajorOrPerfectCoerceDegree, 1, ite(c == MinorOrDiminishedCoerceDegree, 2, ite(c == AugmentedCoerceDegree, 3, ite(c == DiminishedCoerceDegree, 4, ite(c == DoublyAugmentedCoerceDegree, 5, ite(c == DoublyDiminishedCoerceDegree, 6, 0))))))
+//@ define validName(n) n == C || n == D || n == E || n == F || n == G || n == A || n == B
+//@ define letter(n) ite(n == C, 0, ite(n == D, 1, ite(n == E, 2, ite(n == F, 3, ite(n == G, 4, ite(n == A, 5, 6))))))
+//@ define validAcc(a) a == Natural || a == Sharp || a == Flat || a == DoubleSharp || a == DoubleFlat
+//@ define accSemi(a) ite(a == Sharp, 1, ite(a == Flat, 0 - 1, ite(a == DoubleSharp, 2, ite(a == DoubleFlat, 0 - 2, 0))))
+//@ define noteSemi(n) spec.letterSemi(letter(n.Name)) + accSemi(n.Accidental)
+
+// ---- intervals ----
 
 //@ func Degree.Semitone returns (s, ok)
 //@   pure
@@ -13,3 +23,70 @@ package note
 //@   ensures ok ==> s == spec.intervalSize(d.Value, qual(d.Name))
 //@   ensures !ok ==> s == 0
 //@   decreases d.Value
+
+//@ func NewDegree returns (d, ok)
+//@   pure
+//@   ensures d.Value == value && d.Name == name
+//@   ensures ok == spec.validInterval(value, qual(name))
+
+//@ func MustNewDegree returns (d)
+//@   pure
+//@   requires spec.validInterval(value, qual(name))
+//@   ensures d.Value == value && d.Name == name
+
+//@ func DegreeName.Coerce returns (c)
+//@   pure
+//@   ensures cq(c) == spec.qualCoerce(qual(d))
+
+//@ func CoerceDegreeName.Degree returns (d, ok)
+//@   pure
+//@   ensures ok == (value >= 1 && cq(c) != 0)
+//@   ensures ok ==> d.Value == value && qual(d.Name) == spec.coerceQual(cq(c), value)
+//@   ensures ok ==> spec.validInterval(d.Value, qual(d.Name))
+
+// ---- pitch arithmetic ----
+
+//@ func Name.Semitone returns (s)
+//@   pure
+//@   requires validName(n)
+//@   ensures s == spec.letterSemi(letter(n))
+
+//@ func Accidental.Semitone returns (s)
+//@   pure
+//@   requires validAcc(a)
+//@   ensures s == accSemi(a)
+
+//@ func Note.Semitone returns (s)
+//@   pure
+//@   requires validName(n.Name) && validAcc(n.Accidental)
+//@   ensures s == noteSemi(n)
+
+//@ func Octave.Semitone returns (s)
+//@   pure
+//@   ensures s == 12 * o
+
+//@ func Semitone.Octave returns (o)
+//@   pure
+//@   requires s > 0 - 12
+//@   ensures o == spec.fdiv(s, 12)
+
+//@ func Semitone.WithoutOctave returns (r)
+//@   pure
+//@   requires s > 0 - 12
+//@   ensures r == spec.fmod(s, 12)
+
+//@ func Name.GetDegree returns (v, ok)
+//@   pure
+//@   requires (validName(x) || x == UnknownName) && (validName(y) || y == UnknownName)
+//@   ensures ok == (validName(x) && validName(y))
+//@   ensures ok ==> v == spec.simpleNumber(letter(y) - letter(x) + 1)
+
+//@ func Note.AddDegree returns (r, o, err)
+//@   pure
+//@   requires validName(n.Name) && validAcc(n.Accidental)
+//@   ensures (err == nil) == spec.validInterval(d.Value, qual(d.Name))
+//@   ensures err == nil ==> validName(r.Name) && (r.Accidental == Natural || r.Accidental == Sharp || r.Accidental == Flat)
+//@   ensures err == nil ==> noteSemi(r) + 12 * o == noteSemi(n) + spec.intervalSize(d.Value, qual(d.Name))
+//@   ensures err == nil ==> 0 <= noteSemi(r) && noteSemi(r) < 12
+//@   ensures err == nil ==> (spec.isNaturalPC(noteSemi(r)) ==> r.Accidental == Natural)
+//@   ensures err == nil ==> (!spec.isNaturalPC(noteSemi(r)) ==> r.Accidental == ite(precedeSharp, Sharp, Flat))
